@@ -63,3 +63,46 @@ def run_values(ctx, names, values, label):
     for r, i, m in zip(recs, impl, model):
         r["impl"], r["model"] = i, m
     return recs
+
+
+def fmtops_family(ctx, rng, n, names, run_impl):
+    """Header map histories with the map formatted in between (set / get / remove / fmt), judged by the plainest specification: one value per
+    name, compared without regard to letter case; formatting changes nothing and the section formatted at the end holds exactly the stored
+    fields, in insertion order.  Returns [(line, what)]."""
+    from common import hx, unhx
+    lines = []
+    for _ in range(n):
+        ops = []
+        for _ in range(rng.randint(2, 25)):
+            k = rng.random(); nm = rng.choice(names)
+            if k < 0.4:
+                ops.append("set,%s,%s" % (hx(U(nm)), hx(U(rng.choice(["v1", "value two", "x y z"])))))
+            elif k < 0.6:
+                ops.append("fmt," + hx(U(nm)))
+            elif k < 0.8:
+                ops.append("get," + hx(U(nm)))
+            else:
+                ops.append("remove," + hx(U(nm)))
+        lines.append("hdrs.fmtops\t" + ";".join(ops))
+    bad = []
+    for line, r in zip(lines, run_impl(lines)):
+        ctx.count()
+        want, store = [], {}
+        got = r.split("\t")[0].split(";") if r.split("\t")[0] else []
+        for op in line.split("\t")[1].split(";"):
+            p = op.split(","); key = unhx(p[1]).lower()
+            if p[0] == "set":
+                store[key] = unhx(p[2]); want.append("unit")
+            elif p[0] == "fmt":
+                want.append("unit")
+            elif p[0] == "get":
+                want.append("some:" + hx(store[key]) if key in store else "none")
+            else:
+                want.append("some:" + hx(store.pop(key)) if key in store else "none")
+        blk = unhx(r.split("\t")[1]) if "\t" in r else b""
+        shown = [x.split(b":")[0].lower() for x in blk.split(b"\r\n") if x and not x.startswith((b" ", b"\t"))]
+        if want != got:
+            bad.append((line, "header map history answers %r, one value per name gives %r" % (got[:12], want[:12])))
+        elif shown != list(store.keys()):
+            bad.append((line, "the formatted header section shows the fields %r, stored are %r" % ([x.decode("latin-1") for x in shown], [x.decode("latin-1") for x in store.keys()])))
+    return bad
